@@ -110,19 +110,11 @@ package evalfilter
 //@ loop 5 invariant compile.inv.pool: forall i in 0..old(len(e.constants)) :: e.constants[i] === old(e.constants[i])
 //@ loop 5 invariant compile.inv.errs: nerrs() == old(nerrs()) && e.functions == old(e.functions) && e.functions != nil
 //@ loop 5 invariant compile.inv.rows: forall a ref :: existed(a) && a != old(arr(e.instructions)) ==> rowUnchanged(byte, a)
-//@ loop 6 invariant compile.inv.fn: e.functions == entry(e.functions) && e.functions != nil && nerrs() == old(nerrs())
-//@ loop 6 invariant compile.inv.fn.pool.len: len(e.constants) >= old(len(e.constants))
-//@ loop 6 invariant compile.inv.fn.pool: forall i in 0..old(len(e.constants)) :: e.constants[i] === old(e.constants[i])
-//@ loop 6 invariant compile.inv.fn.rows: forall a ref :: existed(a) ==> rowUnchanged(byte, a)
-//@ loop 7 invariant compile.inv.len: len(e.instructions) >= old(len(e.instructions)) && (arr(e.instructions) == old(arr(e.instructions)) || fresh(e.instructions))
-//@ loop 7 invariant compile.inv.prefix: forall i in 0..old(len(e.instructions)) :: e.instructions[i] == old(e.instructions[i])
-//@ loop 7 invariant compile.inv.pool.len: len(e.constants) >= old(len(e.constants))
-//@ loop 7 invariant compile.inv.pool: forall i in 0..old(len(e.constants)) :: e.constants[i] === old(e.constants[i])
-//@ loop 7 invariant compile.inv.errs: nerrs() == old(nerrs()) && e.functions == old(e.functions) && e.functions != nil
-//@ loop 7 invariant compile.inv.rows: forall a ref :: existed(a) && a != old(arr(e.instructions)) ==> rowUnchanged(byte, a)
-//@ loop 7 invariant @C18 compile.inv.patches.lo: forall k in 0..len(patches) :: old(len(e.instructions)) <= patches[k]
-//@ loop 7 invariant @C18 compile.inv.patches.hi: forall k in 0..len(patches) :: patches[k] + 2 < len(e.instructions)
-//@ loop 7 invariant compile.inv.patches.fresh: fresh(patches)
+// (loop 6 is the scan for the last instruction of a function body: it writes nothing)
+//@ loop 7 invariant compile.inv.fn: e.functions == entry(e.functions) && e.functions != nil && nerrs() == old(nerrs())
+//@ loop 7 invariant compile.inv.fn.pool.len: len(e.constants) >= old(len(e.constants))
+//@ loop 7 invariant compile.inv.fn.pool: forall i in 0..old(len(e.constants)) :: e.constants[i] === old(e.constants[i])
+//@ loop 7 invariant compile.inv.fn.rows: forall a ref :: existed(a) ==> rowUnchanged(byte, a)
 //@ loop 8 invariant compile.inv.len: len(e.instructions) >= old(len(e.instructions)) && (arr(e.instructions) == old(arr(e.instructions)) || fresh(e.instructions))
 //@ loop 8 invariant compile.inv.prefix: forall i in 0..old(len(e.instructions)) :: e.instructions[i] == old(e.instructions[i])
 //@ loop 8 invariant compile.inv.pool.len: len(e.constants) >= old(len(e.constants))
@@ -156,6 +148,15 @@ package evalfilter
 //@ loop 11 invariant compile.inv.pool: forall i in 0..old(len(e.constants)) :: e.constants[i] === old(e.constants[i])
 //@ loop 11 invariant compile.inv.errs: nerrs() == old(nerrs()) && e.functions == old(e.functions) && e.functions != nil
 //@ loop 11 invariant compile.inv.rows: forall a ref :: existed(a) && a != old(arr(e.instructions)) ==> rowUnchanged(byte, a)
+//@ loop 11 invariant @C18 compile.inv.patches.lo: forall k in 0..len(patches) :: old(len(e.instructions)) <= patches[k]
+//@ loop 11 invariant @C18 compile.inv.patches.hi: forall k in 0..len(patches) :: patches[k] + 2 < len(e.instructions)
+//@ loop 11 invariant compile.inv.patches.fresh: fresh(patches)
+//@ loop 12 invariant compile.inv.len: len(e.instructions) >= old(len(e.instructions)) && (arr(e.instructions) == old(arr(e.instructions)) || fresh(e.instructions))
+//@ loop 12 invariant compile.inv.prefix: forall i in 0..old(len(e.instructions)) :: e.instructions[i] == old(e.instructions[i])
+//@ loop 12 invariant compile.inv.pool.len: len(e.constants) >= old(len(e.constants))
+//@ loop 12 invariant compile.inv.pool: forall i in 0..old(len(e.constants)) :: e.constants[i] === old(e.constants[i])
+//@ loop 12 invariant compile.inv.errs: nerrs() == old(nerrs()) && e.functions == old(e.functions) && e.functions != nil
+//@ loop 12 invariant compile.inv.rows: forall a ref :: existed(a) && a != old(arr(e.instructions)) ==> rowUnchanged(byte, a)
 
 // ---- the embedding API (C20) --------------------------------------------------------------------
 //@ func (e *Eval) AddFunction(name string, fun interface{})
